@@ -20,6 +20,8 @@ def check(run):
     for i in sorted(rejected):
         ev = events[i - 1]
         sig = {"table": ev["e"].split("_")[0], "out": ev["out"]}
+        if not ev.get("again_same", True):
+            sig["context"] = "second_call_differs"
         if ev["e"].startswith("ac13") and ev["out"] == "ok":
             sig["class"] = "gillham_above_65535" if (ev["x"] & 0x50) == 0 else "other"
         run.report(sig, {"event": ev, "index": i,
@@ -31,11 +33,14 @@ def check(run):
         "events_validated": len(events),
         "events_per_table": dict(per),
         "rejected_events": len(rejected),
+        "second_call_differs": sum(1 for e in events if not e.get("again_same", True)),
         "mc_states": m.distinct,
         "samples": [events[5], events[8192 + 0x0620], events[8192 + 65536 + 3 * 0x1238]],
         "rule": "all 2^13 identity codes, all 2^16 Gillham arguments, all 2^13 AC codes through "
                 "DF0/DF4/DF20 frames, all 2^13 squawks through DF5, all 2^12 ME altitude codes "
-                "through DF17 TC11 and TC20",
+                "through DF17 TC11 and TC20; every call is made twice (ascending with an unrelated call "
+                "before every 7th call and a truncated frame before every 3rd frame decode, then "
+                "descending) and the two results of the code must be equal",
     })
     run.assumptions += [
         "M = 1 (metric) altitude codes are checked for totality only (outside the property)",
